@@ -287,6 +287,11 @@ func rings() [][][]ipt {
 		{{{0, 0}, {400, 0}, {400, 100}, {100, 100}, {100, 300}, {400, 300}, {400, 400}, {0, 400}}}, // unclosed C shape
 		{{{5, 5}}, {}, {{1, 1}, {9, 9}}}, // degenerate rings
 		{},
+		// degenerate rings (no, one, two vertices) next to rings that lose vertices
+		{sq(0, 0, 400, 400), {}},
+		{{}, {{0, 0}, {130, 20}, {260, -10}, {400, 0}, {410, 200}, {400, 400}, {200, 420}, {0, 400}, {-20, 200}, {0, 0}}},
+		{{{0, 0}, {130, 20}, {260, -10}, {400, 0}, {410, 200}, {400, 400}, {200, 420}, {0, 400}, {-20, 200}, {0, 0}}, {{150, 150}}, {{100, 100}, {150, 90}, {200, 100}, {210, 150}, {200, 200}, {100, 200}, {100, 100}}},
+		{{{0, 0}, {130, 20}, {260, -10}, {400, 0}, {410, 200}, {400, 400}, {200, 420}, {0, 400}, {-20, 200}, {0, 0}}, {{100, 100}, {200, 200}}, {}},
 	}
 }
 
@@ -727,7 +732,7 @@ func main() {
 		}
 	}
 	r := report.New("C13", tier, "model_checking")
-	r.Rule = "E1 (isolated workers, 2 GiB address-space limit, 60 s silence horizon): every vertex sequence of length 0..6 (thorough: over 16 points) over a 12-point set with no three points collinear (verified exactly) x tolerances {0,40,100,150,300,1e9}; every sequence of length 3..5 over the same point set scaled by 1e-3, by 1e-5 and (exactly) by 2^80 x 3 scaled tolerances each; every sequence of length 3..6 over an 8-point sliver set (flat triangles, 1..5 degree crossings; no three collinear) at the exact scales 1, 2^-8, 2^-16 x 4 tolerances; every injective sequence of length 3..8 over an 8-point witness set (two-step back-offs) x 5 tolerances and of length 7 over the main set x 3 tolerances; every injective sequence of length 3..6 over a flat 6-point set (extent 10^7 x 0.1) x 4 tolerances of 1e-3..0.1 (chords 10^8..10^10 tolerances long); three shapes of simple x-monotone lines of 63..1000 vertices x 5 tolerances; every sequence of length <= 4 over the plain 4x4 integer grid x 4 tolerances (termination / subsequence / tolerance clauses only); 7 polygons (holes, unclosed, degenerate rings) x 6 tolerances and all ordered pairs as MultiPolygon; two-member MultiLineStrings. Oracle (every polygon / multi case and every 8th line case also with the vertex slices cut from one flat buffer and called twice: same output, buffer not written): terminates; output is an order-preserving subsequence keeping first and last vertex; an embedding exists in which every dropped vertex is within tol of its replacing segment; exactly simple input => exactly simple output; input unchanged; multi members equal the member simplified alone. Non-trivial = calls that drop at least one vertex."
+	r.Rule = "E1 (isolated workers, 2 GiB address-space limit, 60 s silence horizon): every vertex sequence of length 0..6 (thorough: over 16 points) over a 12-point set with no three points collinear (verified exactly) x tolerances {0,40,100,150,300,1e9}; every sequence of length 3..5 over the same point set scaled by 1e-3, by 1e-5 and (exactly) by 2^80 x 3 scaled tolerances each; every sequence of length 3..6 over an 8-point sliver set (flat triangles, 1..5 degree crossings; no three collinear) at the exact scales 1, 2^-8, 2^-16 x 4 tolerances; every injective sequence of length 3..8 over an 8-point witness set (two-step back-offs) x 5 tolerances and of length 7 over the main set x 3 tolerances; every injective sequence of length 3..6 over a flat 6-point set (extent 10^7 x 0.1) x 4 tolerances of 1e-3..0.1 (chords 10^8..10^10 tolerances long); three shapes of simple x-monotone lines of 63..1000 vertices x 5 tolerances; every sequence of length <= 4 over the plain 4x4 integer grid x 4 tolerances (termination / subsequence / tolerance clauses only); 11 polygons (holes, unclosed, degenerate rings alone and next to rings that lose vertices) x 6 tolerances and all ordered pairs as MultiPolygon; two-member MultiLineStrings. Oracle (every polygon / multi case and every 8th line case also with the vertex slices cut from one flat buffer and called twice: same output, buffer not written): terminates; output is an order-preserving subsequence keeping first and last vertex; an embedding exists in which every dropped vertex is within tol of its replacing segment; exactly simple input => exactly simple output; input unchanged; multi members equal the member simplified alone. Non-trivial = calls that drop at least one vertex."
 	sum := fault.Sweep(r, 16, 2<<20, 60*time.Second, func(idx int64) (string, interface{}) {
 		var sig string
 		var det interface{}
